@@ -31,13 +31,30 @@ def tree_stats(node):
     return vs, nb
 
 
+DISPUTED = [':consist-of', ':x-of', ':u-of', ':prep-on-behalf-of', ':part-of']
+
+
+def churn_models(rng):
+    """two role tables that disagree on whether a role ending in -of is inverted, as fresh
+    (short-lived) penman Model objects with their reference models"""
+    from penman.model import Model
+    from pmon.ref.model import RefModel
+    d = rng.choice(DISPUTED)
+    roles = {d: {}, ':ARG[0-9]': {}, ':quant': {}, ':mod': {}}
+    return d, (lambda: (Model(roles=roles), RefModel(roles=list(roles), name='defines' + d))), \
+        (lambda: (Model(), RefModel(name='default')))
+
+
 def roundtrip(ctx, g, top, mname, want=None, variables=None, clause='encode-decode', budget=False,
-              indent=None, payload=None):
+              indent=None, payload=None, model_rm=None):
     """encode(g, top) must succeed; decoding must give the requested top, the
     same variables and the same content; the text defines every variable at
     most once and has one branch per non-null-concept triple (conservation).
     Returns the text or None."""
-    _, model, rm, _ = M.get(mname)
+    if model_rm is not None:
+        model, rm = model_rm
+    else:
+        _, model, rm, _ = M.get(mname)
     if variables is None:
         variables = g.variables()
     if want is None:
